@@ -743,6 +743,9 @@ class VF:
                 return None
         elif k == "std::option::Option::<T>::unwrap_or" and len(args) == 2:
             none = args[1]
+        elif k == "std::option::Option::<T>::or" and len(args) == 2:
+            # `a.or(b)` is `match a { Some(_) => a, None => b }`
+            return ("GATE", ("D", args[0], "std::option::Option"), ((0, args[1]), (1, args[0])))
         elif k.endswith("bool>::then_some") and len(args) == 2:
             # `c.then_some(v)` is `if c { Some(v) } else { None }`
             some = ("A", "std::option::Option", "Some", (("0", args[1]),))
